@@ -123,6 +123,7 @@ package server
 //@   loop#1 invariant self.fastQueue == old(self.fastQueue) && implies(old(self.fastIndex) >= 0, 0 <= currentIndex && currentIndex <= i)
 //@   loop#1 invariant C20.holder.compact-prefix,C01.holder.compact-prefix: implies(old(self.fastIndex) >= 0, old(self.fastIndex) <= i && i <= len(self.fastQueue) && forall(k, 0, currentIndex, self.fastQueue[k] != nil && self.fastQueue[k].locked > 0) && forall(k, i, len(self.fastQueue), self.fastQueue[k] == old(self.fastQueue[k])))
 //@   ensures C20.holder.push-last,C01.holder.push-last: implies(old(self.scaleQueue) == nil && self.scaleQueue == nil, len(self.fastQueue) >= 1 && self.fastQueue[len(self.fastQueue)-1] == lock)
+//@   ensures C20.holder.push-window,C01.holder.push-window: implies(old(self.scaleQueue) == nil && self.scaleQueue == nil && old(self.fastIndex) >= 0 && old(self.fastIndex) <= old(len(self.fastQueue)), self.fastIndex >= 0 && self.fastIndex < len(self.fastQueue))
 //@   ensures C20.holder.compacted,C01.holder.compacted: implies(old(self.scaleQueue) == nil && self.scaleQueue == nil && !isnil(old(self.fastQueue)) && old(len(self.fastQueue)) == old(cap(self.fastQueue)) && old(self.fastIndex) >= 0 && old(self.fastIndex) < old(len(self.fastQueue)), forall(k, self.fastIndex, len(self.fastQueue) - 1, self.fastQueue[k] != nil && self.fastQueue[k].locked > 0))
 //@   loop#1 backedge C20.holder.compact-keeps,C01.holder.compact-keeps,C02.holder.compact-keeps: implies(old(self.fastIndex) >= 0 && queuedLock != nil && queuedLock.locked > 0, currentIndex == athead(currentIndex) + 1)
 //@   loop#1 backedge C20.holder.compact-keeps,C01.holder.compact-keeps,C02.holder.compact-keeps: implies(old(self.fastIndex) >= 0 && queuedLock != nil && queuedLock.locked > 0, self.fastQueue[athead(currentIndex)] == queuedLock)
@@ -241,6 +242,7 @@ package server
 //@   loop#1 invariant self.fastQueue == old(self.fastQueue) && implies(old(self.fastIndex) >= 0, 0 <= currentIndex && currentIndex <= i)
 //@   loop#1 invariant C20.wait.compact-prefix,C04.wait.compact-prefix: implies(old(self.fastIndex) >= 0, old(self.fastIndex) <= i && i <= len(self.fastQueue) && forall(k, 0, currentIndex, self.fastQueue[k] != nil && !self.fastQueue[k].timeouted && self.fastQueue[k].ackCount == 0xff) && forall(k, i, len(self.fastQueue), self.fastQueue[k] == old(self.fastQueue[k])))
 //@   ensures C20.wait.push-last,C04.wait.push-last: implies(isnil(old(self.ringQueue)) && isnil(self.ringQueue), len(self.fastQueue) >= 1 && self.fastQueue[len(self.fastQueue)-1] == lock)
+//@   ensures C20.wait.push-window,C04.wait.push-window: implies(isnil(old(self.ringQueue)) && isnil(self.ringQueue) && old(self.fastIndex) >= 0 && old(self.fastIndex) <= old(len(self.fastQueue)), self.fastIndex >= 0 && self.fastIndex < len(self.fastQueue))
 //@   loop#1 backedge C20.wait.compact-keeps,C04.wait.compact-keeps: implies(old(self.fastIndex) >= 0 && queuedLock != nil && !queuedLock.timeouted && queuedLock.ackCount == 0xff, currentIndex == athead(currentIndex) + 1 && self.fastQueue[athead(currentIndex)] == queuedLock)
 //@   loop#1 backedge C17.wait.compact-releases: implies(queuedLock != nil && (athead(queuedLock.timeouted) || athead(queuedLock.ackCount) != 0xff), queuedLock.refCount == u8(athead(queuedLock.refCount) - 1) && currentIndex == athead(currentIndex) && implies(queuedLock.refCount == 0, calls(FreeLock) == athead(calls(FreeLock)) + 1))
 //@   assumes refDiscipline() && lockSame(lock)
@@ -304,7 +306,7 @@ package server
 //@   at call LockManagerLockQueue.RemoveLock assert C02.release.unindex,C01.release.unindex: implies(old(self.currentLock) != lock, arg1 == lock.command)
 //@   at call LockManagerLockQueue.RemoveLock assert C17.promote.unindex,C02.promote.unindex,C01.promote.unindex: implies(old(self.currentLock) == lock, arg1 == lockedLock.command && lockedLock.locked > 0)
 //@   ensures C02.release.unindexed,C01.release.unindexed: implies(old(self.currentLock) != lock && old(self.locks) != nil, calls(LockManagerLockQueue.RemoveLock) == 1)
-//@   ensures C02.release.depth,C01.release.depth: lock.locked == 0 && lock.ackCount == 0xff && result == lock
+//@   ensures C02.release.depth,C01.release.depth,C03.release.depth,C11.release.depth: lock.locked == 0 && lock.ackCount == 0xff && result == lock
 //@   ensures C01.release.oldest: implies(old(self.currentLock) != lock, self.currentLock == old(self.currentLock))
 //@   ensures C01.release.next: implies(old(self.currentLock) == lock && self.currentLock != nil, self.currentLock.locked > 0)
 //@   ensures forallref(l, Lock, implies(l != lock, l.locked == old(l.locked) && l.ackCount == old(l.ackCount)))
@@ -392,6 +394,7 @@ package server
 
 //@ func (*LockDB).RemoveLockManager
 //@   requires self != nil && lockManager != nil && lockManager.state != nil
+//@   ensures C01.reclaim.key-cleared,C17.reclaim.key-cleared: implies(lockManager.state.KeyCount != old(lockManager.state.KeyCount), forall(k, 0, 16, lockManager.lockKey[k] == 0))
 //@   ensures C17.reclaim.value,C15.reclaim.value: implies(lockManager.state.KeyCount != old(lockManager.state.KeyCount), lockManager.currentData == nil && lockManager.fastKeyValue == nil)
 //@   ensures lockManager.locked == old(lockManager.locked) && lockManager.waited == old(lockManager.waited)
 //@   ensures C17.reclaim.onlyidle: implies(old(lockManager.refCount) != 0, lockManager.currentLock == old(lockManager.currentLock) && lockManager.currentData == old(lockManager.currentData) && lockManager.lockKey == old(lockManager.lockKey) && lockManager.freeLocks == old(lockManager.freeLocks) && lockManager.refCount == old(lockManager.refCount))
@@ -1304,7 +1307,7 @@ package server
 //@   requires C07.args: self != nil && lock != nil && lockCommand != nil && self.lockDb != nil
 //@   requires C07.ctx: clockSane(self.lockDb) && lock.expriedTime >= 0 && lock.expriedTime < 0x10000000000 && lock.expriedTime - self.lockDb.currentTime <= ite(lockCommand.ExpriedFlag&0x0040 != 0, 0xffff * 60 + 1, 0x10000)
 //@   at call pushAofLock assert C07.record.content: aofLock.CommandType == commandType && aofLock.DbId == dbId && aofLock.LockId == lockCommand.LockId && aofLock.LockKey == lockCommand.LockKey && aofLock.ExpriedFlag == lockCommand.ExpriedFlag && aofLock.CommandTime == min(self.lockDb.currentTime, lock.expriedTime) && aofLock.ExpriedTime == persistedLife(lockCommand.ExpriedFlag, lockCommand.Expried, lock.expriedTime, aofLock.CommandTime)
-//@   at call pushAofLock assert C07.record.counts: implies(unLockCommand == nil, aofLock.Count == lockCommand.Count && aofLock.Rcount == ite(commandType == protocol.COMMAND_UNLOCK, 0, lockCommand.Rcount)) && implies(unLockCommand != nil, aofLock.Count == unLockCommand.Count && aofLock.Rcount == unLockCommand.Rcount)
+//@   at call pushAofLock assert C07.record.counts,C02.record.counts: implies(unLockCommand == nil, aofLock.Count == lockCommand.Count && aofLock.Rcount == ite(commandType == protocol.COMMAND_UNLOCK, 0, lockCommand.Rcount)) && implies(unLockCommand != nil, aofLock.Count == unLockCommand.Count && aofLock.Rcount == unLockCommand.Rcount)
 //@   at call pushAofLock assert C07.record.value: (aofLock.AofFlag&0x2000 != 0) == (!isnil(lockData) || aofFlag&0x2000 != 0) && implies(!isnil(lockData), aofLock.data == lockData) && aofLock.AofFlag&0x000f == aofFlag&0x000f
 //@   modifies AofChannel.*, AofLockQueue.next, AofLockQueue.windex, AofLock.*, Aof.freeLockQueueIndex, PriorityMutex.*, E_Pserver_AofLock
 
